@@ -88,6 +88,8 @@ def to_larr(v, rank=None):
 
 def select(data, idx):
     """data[idx] for a concrete object array and (possibly symbolic) index tuple"""
+    if not isinstance(data, np.ndarray):
+        return data
     if data.ndim == 0:
         return data[()]
     i0 = idx[0]
